@@ -64,6 +64,21 @@ func ParseTarget(filename, src string) (*Target, error) {
 	if err := os.WriteFile(filename, []byte(src), 0o644); err != nil {
 		return nil, err
 	}
+	return parseTargetAt(filename, src)
+}
+
+// ParseTargetMem parses and type-checks src under a file name that does not exist on disk (the
+// engine then cannot read the file's bytes and falls back to go/printer / comment text); an
+// absolute filename is kept as it is (the caller wrote the file itself).
+func ParseTargetMem(filename, src string) (*Target, error) {
+	if !filepath.IsAbs(filename) {
+		targetSeq++
+		filename = filepath.Join(TempDir(), fmt.Sprintf("mem-%d", targetSeq), "absent", filepath.Base(filename))
+	}
+	return parseTargetAt(filename, src)
+}
+
+func parseTargetAt(filename, src string) (*Target, error) {
 	fset := token.NewFileSet()
 	f, err := parser.ParseFile(fset, filename, src, parser.ParseComments)
 	if err != nil {
